@@ -347,4 +347,41 @@ def PackageSpec (files : List FileObs) : Bool :=
 def packageCulprit (files : List FileObs) : Option String :=
   (files.find? fun f => f.callsMath && !sees files (files.length + 1) f.name "cmath").map (·.name)
 
+/-! ### placement level: the function is accepted wherever an expression may stand
+
+A documented call `e` is written at some position of a query (argument of an object method or of a
+user C++ function, tuple / dict element, index, test or arm of a conditional, predicate of a
+`Where`, …).  What the surrounding construct emits is the business of other properties; C12 demands
+that the query is accepted, that *somewhere in the emitted code* stands an expression that means
+what `e` means, and that the headers `e` needs are included. -/
+
+def tailsOf : List Char → List (List Char)
+  | [] => [[]]
+  | c :: cs => (c :: cs) :: tailsOf cs
+
+/-- some position of `code` starts an expression of the emitted language that means `psym e` -/
+def occursMeaning (c : Cfg) (leaves : List (String × String)) (e : PExpr) (code : String) : Bool :=
+  let target := psym e
+  (tailsOf code.toList).any fun s =>
+    match s with
+    | [] => false
+    | ch :: _ =>
+      (ch.isAlpha || ch == '(') &&
+      match parseE c leaves (s.length + 1) s with
+      | some (t, _) => Sym.beq (csym t) target
+      | none => false
+
+/-- `code` = the emitted statements (white space removed), `none` = the translator raised -/
+def PlacementSpec (c : Cfg) (readme : List String) (leaves : List (String × String)) (e : PExpr)
+    (obs : Option (String × List String)) : Bool × String :=
+  if !Documented readme e then (true, "not a documented expression: nothing demanded")
+  else match obs with
+    | none => (false, "a query using a documented function at this position was rejected")
+    | some (code, incs) =>
+      if !occursMeaning c leaves e code then
+        (false, "no expression of the emitted code means what the function call means (not translated, or translated to another function)")
+      else if !(neededHeaders e).all (· ∈ incs) then (false, "a needed header is not included")
+      else if !(calledNames e).all byValue then (false, "a function that needs an output parameter cannot be called from a query")
+      else (true, "")
+
 end FaxVerif.C12
